@@ -1,0 +1,112 @@
+//go:build verif
+
+// Contracts for package ast (comment-only; read by /verif/govc).
+
+package ast
+
+//@ import "fmt"
+//@ import "github.com/opsidian/parsley/parsley"
+
+//@ props C07,C10,C13,C01
+//@ kindprops frame=C07,C14
+
+//@ -- ---------------------------------------------------------------- leaf nodes
+//@ method (e EmptyNode) Token() (r string) = "EMPTY"
+//@ method (e EmptyNode) Schema() (r interface{}) = nil
+//@ method (e EmptyNode) Pos() (r parsley.Pos) = parsley.Pos(e)
+//@ method (e EmptyNode) ReaderPos() (r parsley.Pos) = parsley.Pos(e)
+//@ specmethod (e EmptyNode) NodeOK() (r bool) = true
+//@ specmethod (e EmptyNode) ListSpare() (r int) = 0
+//@ specmethod (e EmptyNode) ListArr() (r int) = 0
+//@ specmethod (e EmptyNode) EndsWithin(lo parsley.Pos, hi parsley.Pos) (r bool) = lo <= parsley.Pos(e) && parsley.Pos(e) <= hi
+
+//@ method (t *TerminalNode) Token() (r string) = t.token
+//@ method (t *TerminalNode) Schema() (r interface{}) = t.schema
+//@ method (t *TerminalNode) Value() (r interface{}) = t.value
+//@ method (t *TerminalNode) Pos() (r parsley.Pos) = t.pos
+//@ method (t *TerminalNode) ReaderPos() (r parsley.Pos) = t.readerPos
+//@ specmethod (t *TerminalNode) NodeOK() (r bool) = t != nil
+//@ specmethod (t *TerminalNode) ListSpare() (r int) = 0
+//@ specmethod (t *TerminalNode) ListArr() (r int) = 0
+//@ specmethod (t *TerminalNode) EndsWithin(lo parsley.Pos, hi parsley.Pos) (r bool) = lo <= t.readerPos && t.readerPos <= hi
+
+//@ func NewTerminalNode(schema interface{}, token string, value interface{}, pos parsley.Pos, readerPos parsley.Pos) (t *TerminalNode)
+//@   ensures fresh(t) && t.schema == schema && t.token == token && t.value == value && t.pos == pos && t.readerPos == readerPos
+//@   assigns nothing
+
+//@ -- ------------------------------------------------------------ non-terminal
+//@ method (n *NonTerminalNode) Token() (r string) = n.token
+//@ method (n *NonTerminalNode) Schema() (r interface{}) = n.schema
+//@ method (n *NonTerminalNode) Pos() (r parsley.Pos) = n.pos
+//@ method (n *NonTerminalNode) ReaderPos() (r parsley.Pos) = n.readerPos
+//@ method (n *NonTerminalNode) Children() (r []parsley.Node) = n.children
+//@ specmethod (n *NonTerminalNode) NodeOK() (r bool) = n != nil
+//@ specmethod (n *NonTerminalNode) ListSpare() (r int) = 0
+//@ specmethod (n *NonTerminalNode) ListArr() (r int) = 0
+//@ specmethod (n *NonTerminalNode) EndsWithin(lo parsley.Pos, hi parsley.Pos) (r bool) = lo <= n.readerPos && n.readerPos <= hi
+
+//@ -- ---------------------------------------------------------------- node lists
+//@ -- a list of alternatives is non-empty, flat, holds well-formed nodes and starts at the beginning of its array
+//@ -- (lists are only ever built by literals, append and nl[:len:len], none of which moves the start)
+//@ pure func wfList(nl NodeList) bool = len(nl) >= 1 && offset(nl) == 0 && forall k int :: 0 <= k && k < len(nl) ==> nl[k] != nil && !typeis[NodeList](nl[k]) && parsley.NodeOK(nl[k])
+//@ specmethod (nl NodeList) NodeOK() (r bool) = wfList(nl)
+//@ specmethod (nl NodeList) ListSpare() (r int) = cap(nl) - len(nl)
+//@ specmethod (nl NodeList) ListArr() (r int) = array(nl)
+//@ specmethod (nl NodeList) EndsWithin(lo parsley.Pos, hi parsley.Pos) (r bool) = forall k int :: 0 <= k && k < len(nl) ==> parsley.EndsWithin(nl[k], lo, hi)
+
+//@ method (nl NodeList) Token() (r string) = nl[0].Token()
+//@   requires wfList(nl)
+//@ method (nl NodeList) Schema() (r interface{}) = nil
+//@ method (nl NodeList) Pos() (r parsley.Pos) = nl[0].Pos()
+//@   requires wfList(nl)
+//@ method (nl NodeList) ReaderPos() (r parsley.Pos) = nl[0].ReaderPos()
+//@   requires wfList(nl)
+
+//@ func NewNonTerminalNode(token string, children []parsley.Node, interpreter parsley.Interpreter) (n *NonTerminalNode)
+//@   requires len(children) >= 1 && forall k int :: 0 <= k && k < len(children) ==> children[k] != nil && parsley.NodeOK(children[k])
+//@   ensures  fresh(n) && n.token == token && same(n.children, children) && same(n.interpreter, interpreter) && n.schema == nil
+//@   ensures  [span;C01] n.pos == children[0].Pos() && n.readerPos == children[len(children)-1].ReaderPos()
+//@   assigns  nothing
+//@ loop 1 (k rangeindex)
+//@   invariant 0 <= k && k <= len(children)
+
+//@ func NewEmptyNonTerminalNode(token string, pos parsley.Pos, interpreter parsley.Interpreter) (n *NonTerminalNode)
+//@   ensures  fresh(n) && n.token == token && n.children == nil && n.pos == pos && n.readerPos == pos && same(n.interpreter, interpreter) && n.schema == nil
+//@   assigns  nothing
+
+//@ -- within(n): every alternative of n ends inside the window of the innermost active parser
+//@ pure func within(n parsley.Node) bool = parsley.EndsWithin(n, parsley.GhostLo, parsley.GhostHi)
+//@ pure func validElem(n parsley.Node) bool = n != nil && !typeis[NodeList](n) && parsley.NodeOK(n)
+
+//@ -- Append keeps what is there and adds at the end: in place into spare capacity, or into a fresh array.
+//@ -- Nothing is assumed about aliasing between the list and the node being appended.
+//@ func (nl *NodeList) Append(node parsley.Node)
+//@   requires nl != nil && wfList(*nl) && node != nil && parsley.NodeOK(node)
+//@   ensures  [wf] wfList(*nl) && len(*nl) >= old(len(*nl))
+//@   ensures  [prefix;C07] forall k int :: 0 <= k && k < old(len(*nl)) ==> same((*nl)[k], old((*nl)[k]))
+//@   ensures  [arr;C07] (array(*nl) == old(array(*nl)) && offset(*nl) == old(offset(*nl)) && cap(*nl) == old(cap(*nl))) || fresh(*nl)
+//@   ensures  [tail;C07] forall j int :: old(len(*nl)) <= j && j < old(cap(*nl)) ==> same(old(*nl)[0:old(cap(*nl))][j], old((*nl)[0:cap(*nl)][j])) || validElem(old(*nl)[0:old(cap(*nl))][j])
+//@   ensures  [tail-within] old(within(*nl)) && old(within(node)) ==> forall j int :: old(len(*nl)) <= j && j < old(cap(*nl)) ==> same(old(*nl)[0:old(cap(*nl))][j], old((*nl)[0:cap(*nl)][j])) || within(old(*nl)[0:old(cap(*nl))][j])
+//@   ensures  [within] old(within(*nl)) && old(within(node)) ==> within(*nl)
+//@   assigns  *nl, cells(*nl, len(*nl), cap(*nl))
+//@ loop 1 (k rangeindex, v NodeList)
+//@   invariant 0 <= k && k <= len(v)
+//@   invariant wfList(*nl) && len(*nl) >= old(len(*nl))
+//@   invariant forall j int :: 0 <= j && j < old(len(*nl)) ==> same((*nl)[j], old((*nl)[j]))
+//@   invariant (array(*nl) == old(array(*nl)) && offset(*nl) == old(offset(*nl)) && cap(*nl) == old(cap(*nl))) || fresh(*nl)
+//@   invariant [tail] forall j int :: old(len(*nl)) <= j && j < old(cap(*nl)) ==> same(old(*nl)[0:old(cap(*nl))][j], old((*nl)[0:cap(*nl)][j])) || validElem(old(*nl)[0:old(cap(*nl))][j])
+//@   invariant [tail-within] old(within(*nl)) && old(within(node)) ==> forall j int :: old(len(*nl)) <= j && j < old(cap(*nl)) ==> same(old(*nl)[0:old(cap(*nl))][j], old((*nl)[0:cap(*nl)][j])) || within(old(*nl)[0:old(cap(*nl))][j])
+//@   invariant [rest-valid] forall j int :: k <= j && j < len(v) ==> validElem(v[j])
+//@   invariant [within] old(within(*nl)) && old(within(node)) ==> within(*nl) && forall j int :: k <= j && j < len(v) ==> within(v[j])
+//@ loop 2 (k rangeindex, cur []parsley.Node)
+//@   invariant 0 <= k && k <= len(cur)
+
+//@ func AppendNode(n1 parsley.Node, n2 parsley.Node) (r parsley.Node)
+//@   requires (n1 != nil ==> parsley.NodeOK(n1)) && (n2 != nil ==> parsley.NodeOK(n2))
+//@   ensures  [nil1] n1 == nil ==> same(r, n2)
+//@   ensures  [nil2] n1 != nil && n2 == nil ==> same(r, n1)
+//@   ensures  [list] n1 != nil && n2 != nil ==> typeis[NodeList](r) && parsley.NodeOK(r)
+//@   ensures  [arr;C07] n1 != nil && n2 != nil ==> freshid(parsley.ListArr(r)) || (typeis[NodeList](n1) && parsley.ListArr(r) == parsley.ListArr(n1))
+//@   ensures  [prefix;C07] n1 != nil && n2 != nil && typeis[NodeList](n1) ==> len(r.(NodeList)) >= len(n1.(NodeList)) && forall k int :: 0 <= k && k < len(n1.(NodeList)) ==> same(r.(NodeList)[k], n1.(NodeList)[k])
+//@   ensures  [within] old((n1 != nil ==> within(n1)) && (n2 != nil ==> within(n2))) && r != nil ==> within(r)
+//@   assigns  ite(n1 != nil && n2 != nil && typeis[NodeList](n1), cells(n1.(NodeList), len(n1.(NodeList)), cap(n1.(NodeList))), nothing())
